@@ -9,7 +9,7 @@
 From Coq Require Import Permutation Sorted.
 From CC Require Import Base.Prelude Base.Alloc Base.Ledger Generated.Status Generated.Constants Generated.Guards.
 From CC Require Import Rbuf.RbufModel SPool.SPoolModel DPool.DPoolModel Array.ArrayModel Deque.DequeModel PQueue.PQueueModel Hash.HashModel Tst.TstModel Tree.TreeModel List_.ListModel SList.SListModel.
-From CC Require Import Array.ArrayMore Deque.DequeProofs3 Deque.DequeProofs4 Hash.HashProofsD Hash.HashProofsE List_.ListProofs6 SList.SListProofs5.
+From CC Require Import Array.ArrayMore Array.ArrayStack Deque.DequeProofs3 Deque.DequeProofs4 Hash.HashProofsD Hash.HashProofsE List_.ListProofs6 SList.SListProofs5.
 Local Open Scope N_scope.
 
 (** CC_Array subarray: all b, e below 2^64; invalid ranges rejected with nothing allocated *)
@@ -91,6 +91,28 @@ Theorem C15_array_filter :
              end).
 Proof. exact CC.Array.ArrayMore.filter_spec. Qed.
 Print Assumptions C15_array_filter.
+
+(** CC_Stack filter: a stack of its own (fresh header and array blocks from the source's allocator family, the source's capacity) holding exactly the kept elements in order; empty source rejected; a refused allocation leaves nothing behind *)
+Theorem C15_stack_filter :
+  forall (pred : N -> bool) (s : stack) (al : alloc_st),
+         ArrayProofs.arr_inv (s_arr s) al ->
+         ArrayProofs.lim_ok (s_arr s) al ->
+         limit al * 2 < W ->
+         exists (st : stat) (r : option stack) (al' : alloc_st),
+           stack_filter pred s al = Ok (st, r, al') /\
+           (a_size (s_arr s) = 0 -> st = CC_ERR_OUT_OF_RANGE /\ r = None /\ al' = al) /\
+           (0 < a_size (s_arr s) ->
+            st = CC_OK /\
+            (exists ns : stack,
+               r = Some ns /\
+               a_data (s_arr ns) = filter pred (a_data (s_arr s)) /\
+               a_cap (s_arr ns) = a_cap (s_arr s) /\
+               ArrayProofs.arr_inv (s_arr ns) al' /\
+               s_mem ns = s_mem s /\
+               a_mem (s_arr ns) = s_mem s /\ owned (s_mem s) (s_hdr ns) al' /\ s_hdr ns = next_id al) \/
+            st = CC_ERR_ALLOC /\ r = None /\ live al' = live al).
+Proof. exact CC.Array.ArrayStack.stack_filter_spec. Qed.
+Print Assumptions C15_stack_filter.
 
 (** CC_Deque copy_shallow / copy_deep from every layout (linearised, order preserved) *)
 Theorem C15_deque_copy :
